@@ -445,6 +445,13 @@ def canopy_cover(
         NewCond.canopy_cover_adj_ns = (
             (1.72 * NewCond.canopy_cover_ns) - (NewCond.canopy_cover_ns ** 2) + (0.3 * (NewCond.canopy_cover_ns ** 3))
         )
+        # The adjusted cover is a fraction of soil cover: limit it to 1 (the cubic
+        # exceeds 1 for a canopy cover above 0.966, which would make potential
+        # soil evaporation negative)
+        if NewCond.canopy_cover_adj > 1:
+            NewCond.canopy_cover_adj = 1
+        if NewCond.canopy_cover_adj_ns > 1:
+            NewCond.canopy_cover_adj_ns = 1
 
     else:
         # No canopy outside growing season - set various values to zero
